@@ -31,7 +31,14 @@ def run(eng, rep, tier):
                   "state elimination / closed form can be entered with unmerged parallel edges: %s"
                   % (viol[0][1] if viol else ""), summ, site=(viol[0][0].site.to_json() if viol else None))
         # ------------------------------------------------------------ copies per final state
-        copies = [ev for ev, _ in calls(summ, "copy", own=True) if ev.recv is not None and SELF in ev.recv.alias]
+        # the automaton that is copied per final state: self, or a working copy of self made first (e.g. to give it a
+        # single start state)
+        all_copies = [ev for ev, _ in calls(summ, "copy", own=True) if ev.recv is not None]
+        work = frozenset().union(*[ev.result.alias for ev in all_copies if SELF in ev.recv.alias and ev.result is not None
+                                   and FINAL() not in ev.ctrl] or [frozenset()])
+        copies = [ev for ev in all_copies if (SELF in ev.recv.alias and FINAL() in ev.ctrl) or (ev.recv.alias & work)]
+        if not copies:
+            copies = [ev for ev in all_copies if SELF in ev.recv.alias]
         ok = bool(copies) and all(FINAL() in ev.ctrl for ev in copies)
         ob.decide("R1", "C06.2", fi, "one-copy-per-final:" + label, ok, "one private copy per final state",
                   "to_regex does not work on one private copy per final state", summ, site=site_of(prog, fi, fi.node))
